@@ -191,7 +191,14 @@ func GenFont(t *sim.Tape, maxGlyphs int) *type1.Font {
 		}
 	}
 	if t.Bool(1, 2) {
-		f.CreationDate = time.Date(2000+t.Choose(30), time.Month(1+t.Choose(12)), 1+t.Choose(28), t.Choose(24), t.Choose(60), t.Choose(60), 0, time.UTC)
+		loc := time.UTC
+		switch t.Choose(4) {
+		case 1:
+			loc = time.FixedZone("CET", 3600)
+		case 2:
+			loc = time.FixedZone("", -(5*3600 + 1800))
+		}
+		f.CreationDate = time.Date(2000+t.Choose(30), time.Month(1+t.Choose(12)), 1+t.Choose(28), t.Choose(24), t.Choose(60), t.Choose(60), 0, loc)
 	}
 	return f
 }
